@@ -20,7 +20,7 @@ def rule_lines(ltext):
     """line number (1-based) of each VACT(k) rule in the emitted .l"""
     m = {}
     for n, line in enumerate(ltext.splitlines(), 1):
-        x = re.search(r"\{ VACT\((\d+)\) \}\s*$", line)
+        x = re.search(r"\{ VACT\((\d+)\) \}(\s*\})?\s*$", line)      # (actionwords wrap the action in one more block)
         if x: m[n] = int(x.group(1))
     return m
 
